@@ -29,6 +29,18 @@ the Lean model):
   extends its first / last value.
 * "for every part": also a part that was queried while it was being built.  The maps after an (edit, query, edit, ...)
   history must be those of a part built from the same edits without the queries (clause `stale`).
+* "the quarter durations in force" after a history of `set_quarter_duration` calls in ANY order of times (round 3): the
+  docstring says "that value takes effect until the time of the next quarter duration; a different quarter duration
+  already set at time t is replaced", the code comment "add quarter duration at time t, unless it is redundant".  Three
+  readings agree on every ascending history and on most others:
+    stored  - a call at a time that has an entry replaces it; a call at a time without an entry whose value is already
+              in force there records nothing; any other call adds an entry (what the code does; Lean: `recorded`);
+    every   - every call counts: the value in force at x is that of the last call among those with the greatest time <= x;
+    minimal - a call sets its value from t up to the next CHANGE of the function (redundant entries never exist).
+  They differ only after a call that changed nothing at the time it was made (e.g. q0=4, set(16,4), set(8,6): at 20 the
+  code says 6, `every` says 4).  The oracle is strict where the three agree; where they differ it accepts the map of any
+  one of them (and then uses that reading for all other clauses), so it never fails on a defensible behaviour.  The
+  model mirrors `stored`; C02.all_calls_reading_fails_unordered records the difference to `every`.
 * two parts of one score (same quarter durations, signatures, beat mode; different extents) are checked as parts; the
   difference of their maps at common positions is only compared with the model (C02.origin_common_across_parts: the
   constant shift2 - shift1) - the statement itself says nothing about it.
@@ -44,7 +56,7 @@ from core import Eval
 PROPERTY = "C02"
 DRIVER = "drv_c02"
 PROPS = ["PartituraModel.Props.C02", "PartituraModel.Props.C02Args", "PartituraModel.Props.C02Musical",
-         "PartituraModel.Props.C02Origin", "PartituraModel.Props.C02History"]
+         "PartituraModel.Props.C02Origin", "PartituraModel.Props.C02History", "PartituraModel.Props.C02Calls"]
 TRUSTED = [
     "scipy.interpolate.interp1d kind='linear' (NaN outside the knot range, left-searchsorted segment) and kind='previous' "
     "with fill_value=(y0,yN): modelled as Model.TimeMap.interp / prevValue",
@@ -74,9 +86,13 @@ PARTIAL = [
     "musical beats are positive integers (what the docstring calls 'the number of musical beats'); non-integer table values "
     "are not modelled or generated",
     "set_quarter_duration: the model mirrors the list surgery; proved: the lists stay strictly increasing, positive and start "
-    "at time 0 (built_qd) and one call changes quarter_duration_map exactly on [t, next change) (setQD_law, for positions from "
-    "the first entry on); the TimePoint.quarter attributes and the cached Part._quarter_map the call also updates are "
-    "property C01's subject",
+    "at time 0 (built_qd), one call changes quarter_duration_map exactly on [t, next change) (setQD_law, for positions from "
+    "the first entry on) and after EVERY call history (any order of times, repeated times, redundant values) the lists "
+    "represent 'the last recorded call among those with the greatest time <= x' (table_represents_recorded, "
+    "built_qd_represents); a call at a time without an entry whose value is already in force is not recorded, so the "
+    "reading 'every call counts' holds for ascending histories and histories without such a call "
+    "(table_represents_all_calls_ascending / _of_recorded) and fails otherwise (all_calls_reading_fails_unordered); the "
+    "TimePoint.quarter attributes and the cached Part._quarter_map the call also updates are property C01's subject",
     "NaN / infinite ARGUMENTS are not generated (quarter_duration_map(nan) returns the last value)",
     "two time signatures or two measures starting at the same time are not generated (iteration order is C10's subject)",
     "non-positive divisions or signature numbers (WF / ValidOp fail) are outside the theorems and the generator",
@@ -85,14 +101,20 @@ RULE = ("real partitura.score.Part objects built through Part(), set_quarter_dur
         "use_musical_beat/use_notated_beat/set_musical_beat_per_ts: 0-8 quarter-duration changes and 0-8 signatures on and off "
         "barlines and each other, first measure absent / pickup of every length / full / overfull, notated and musical mode "
         "with default and user tables (values dividing the numerator or not, up to 200, larger than the numerator), "
-        "late-starting, single-point and empty parts; half of the parts are built by a random interleaving of their edits with "
-        "warm-up queries of all five maps on the half-built part; one case in eight is a pair of parts of one score (same "
+        "late-starting, single-point and empty parts; three parts in eight get an arbitrary CALL HISTORY of "
+        "set_quarter_duration (descending / shuffled / rotated order, calls at times that already have an entry, calls whose "
+        "value is already in force, corrections back to the value before, two or three values so that A|B|A tables arise; one "
+        "case in eight is a short part: a table of 2-6 entries set up on a grid of times, then 1-4 calls at earlier / later / the "
+        "same times, on and off the grid); half of the parts are built by a random "
+        "interleaving of their edits (the quarter-duration calls in their call order) with warm-up queries of all five maps and "
+        "with gen_score.warm_readers on the half-built part; one case in eight is a pair of parts of one score (same "
         "durations/signatures, different extents); every map is called on every integer position as an array and as scalars "
         "and on 6-9 arguments of other shapes (list, tuple, int array, 2-D, empty, at change points and outside the range); "
         "distinct = distinct structural description incl. the history; non-trivial = at least two time points")
 LEVEL_TEXT = ("Lean 4 theorems (all knot lists, all rationals, all histories - by induction over the key-point list resp. the "
               "edit history) about an executable model of Part._time_interpolator, the four maps, quarter_duration_map, the "
-              "musical-beat switches with arbitrary user tables, set_quarter_duration and the first/last time point "
+              "musical-beat switches with arbitrary user tables, set_quarter_duration under arbitrary call histories and the "
+              "first/last time point "
               "bookkeeping; every part reachable through the API is proved well formed, so the theorems apply to it without "
               "side conditions.  The model is run against the real implementation on generated parts at every integer "
               "position (arrays, scalars and other shapes), the state the model computes from the edit/query history is "
@@ -278,9 +300,137 @@ def gen_exact_bar(rng):
     return gen_part(rng)
 
 
-def gen_pair(rng):
+# ---- call histories of set_quarter_duration (round 3)
+def _step_fn(marks):
+    """the step function of a {time: value} table as its minimal list of (time, value) changes"""
+    out = []
+    for t in sorted(marks):
+        if not out or out[-1][1] != marks[t]:
+            out.append((t, marks[t]))
+    return out
+
+
+def qd_readings(q0, calls):
+    """{time: value} tables after Part(quarter_duration=q0) and the calls, under the three readings of the module
+    docstring (plain dict bookkeeping, no sorted-list surgery)"""
+    stored, every, minimal = {0: q0}, {0: q0}, {0: q0}
+    for t, q in calls:
+        every[t] = q
+        if t in stored:
+            stored[t] = q
+        else:
+            before = [k for k in stored if k < t]
+            if not before or stored[max(before)] != q:
+                stored[t] = q
+        minimal[t] = q
+        minimal = dict(_step_fn(minimal))
+    return {"stored": stored, "every": every, "minimal": minimal}
+
+
+def _in_force(marks, t, strictly_before=False):
+    ks = [k for k in marks if (k < t if strictly_before else k <= t)]
+    return marks[max(ks)] if ks else None
+
+
+def scramble_qd(rng, d):
+    """turn the ascending, one-call-per-time list d["qd"] into an arbitrary call history: other orders, few values (so
+    that tables A | B | A arise), calls at times that already have an entry, calls whose value is already in force at
+    their time, corrections of an entry back to the value in force before it"""
+    first, last = extent(d)
+    base = [list(x) for x in d["qd"]]
+    vals = sorted({d["q0"]} | {q for _, q in base})
+    if len(vals) < 2 or rng.random() < 0.3:
+        vals.append(rng.choice([v for v in SMALL_DIVS if v not in vals]))
+    if rng.random() < 0.6:
+        pool = rng.sample(vals, min(len(vals), rng.choice([2, 2, 3])))
+        if d["q0"] not in pool and rng.random() < 0.7:
+            pool[0] = d["q0"]
+        base = [[t, rng.choice(pool)] for t, _ in base]
+        vals = pool
+    order = rng.choice(["ascending", "descending", "shuffled", "shuffled", "rotated"])
+    if order == "descending":
+        base.reverse()
+    elif order == "shuffled":
+        rng.shuffle(base)
+    elif order == "rotated" and base:
+        k = rng.randrange(len(base))
+        base = base[k:] + base[:k]
+    calls = base
+    for _ in range(rng.choice([0, 1, 1, 2, 2, 3, 4])):
+        pos = len(calls) if rng.random() < 0.6 else rng.randint(0, len(calls))
+        now = qd_readings(d["q0"], calls[:pos])["stored"]
+        r = rng.random()
+        if r < 0.4 and calls:
+            t = rng.choice(calls)[0]
+        elif r < 0.45:
+            t = 0
+        elif r < 0.6 and len(now) > 1:
+            t = rng.randint(0, max(1, sorted(now)[1]))  # before the first change stored so far
+        else:
+            t = rng.randint(0, last + 3)
+        r = rng.random()
+        if r < 0.45:
+            q = _in_force(now, t)  # a call that says what already holds at t
+        elif r < 0.65:
+            q = _in_force(now, t, True) or rng.choice(vals)  # back to the value before t
+        else:
+            q = rng.choice(vals)
+        calls = calls[:pos] + [[t, q]] + calls[pos:]
+    d["qd"] = calls
+    d["mode"] += "+calls-" + order
+    return d
+
+
+def gen_qd_history(rng):
+    """a short part whose point is the call history: a table of 2-6 entries with two or three values is set up on a grid
+    of times (in any order), then 1-4 calls follow at earlier / later / the same times"""
+    q0 = rng.choice(SMALL_DIVS)
+    vals = [q0] + rng.sample([v for v in SMALL_DIVS if v != q0], rng.choice([1, 1, 2]))
+    grid = sorted(rng.sample(range(1, 97), rng.randint(3, 6)))
+    # a table first (its calls in any order, mostly real changes) ...
+    first_times = rng.sample(grid, rng.randint(2, len(grid)))
+    if rng.random() < 0.6:
+        first_times.sort()
+    calls = []
+    for t in first_times:
+        now = qd_readings(q0, calls)["stored"]
+        other = [v for v in vals if v != _in_force(now, t)]
+        calls.append([t, rng.choice(other) if rng.random() < 0.85 else rng.choice(vals)])
+    # ... then calls anywhere: on the grid (entry or not), between its times, at 0, after the last entry
+    for _ in range(rng.randint(1, 4)):
+        r = rng.random()
+        t = 0 if r < 0.06 else (rng.choice(grid) if r < 0.5 else rng.randint(0, max(grid) + 4))
+        now = qd_readings(q0, calls)["stored"]
+        r = rng.random()
+        if r < 0.4:
+            q = _in_force(now, t)
+        elif r < 0.55:
+            q = _in_force(now, t, True) or q0
+        else:
+            q = rng.choice(vals)
+        calls.append([t, q])
+    last = max(grid) + rng.randint(1, 12) if rng.random() < 0.8 else rng.randint(max(2, grid[0]), max(grid))
+    ts_list = [(0,) + rng.choice(SIGS)] if rng.random() < 0.85 else []
+    if rng.random() < 0.5:
+        u = rng.choice(grid + [rng.randint(1, last)])
+        if u <= last and u not in [x[0] for x in ts_list]:
+            ts_list.append((u,) + rng.choice(SIGS))
+    measures = []
+    if rng.random() < 0.7:
+        e = rng.randint(1, last)
+        measures.append([0, e])
+        if e < last and rng.random() < 0.5:
+            measures.append([e, rng.randint(e + 1, last)])
+    ops, mode = _mode_ops(rng, sorted(ts_list))
+    return {"kind": "part", "q0": q0, "first": 0, "last": last, "qd": calls, "ops": ops, "measures": measures,
+            "notes": [[0, last]], "mode": mode + "+callgrid", "halves": [rng.randint(0, last - 1) for _ in range(3)]}
+
+
+def gen_pair(rng, scramble=False):
     """two parts of one score: same quarter durations, signatures and mode operations, different extents"""
     a = gen_part(rng)
+    if scramble:
+        scramble_qd(rng, a)
     fa, la = extent(a)
     b = dict(a)
     fb = rng.randint(fa, max(fa, la - 1)) if rng.random() < 0.7 else fa
@@ -308,13 +458,17 @@ def cases(rng, tier):
         if i % 8 == 7:
             d = gen_exact_bar(rng)
         elif i % 8 == 3:
-            d = gen_pair(rng)
+            d = gen_pair(rng, scramble=(i % 16 == 11))
             if i % 16 == 3:
                 d["b"]["hist"] = gen_hist(rng, d["b"])
             yield d
             continue
+        elif i % 8 == 5:
+            d = gen_qd_history(rng)
         else:
             d = gen_part(rng)
+            if i % 8 in (1, 4, 6):
+                scramble_qd(rng, d)
         if i % 2 == 1:
             d["hist"] = gen_hist(rng, d)
         yield d
@@ -333,10 +487,12 @@ class Spec:
 
     def __init__(self, d):
         self.first, self.last = extent(d)
-        qd = {0: d["q0"]}
-        for t, q in d["qd"]:
-            qd[t] = q
-        self.qd = sorted(qd.items())
+        # the quarter durations the call history dictates (three readings, see the module docstring); `stored` until
+        # `_eval_part` finds that the part follows another admissible one
+        self.readings = qd_readings(d["q0"], d["qd"])
+        self.reading = "stored"
+        self.ambiguous = len({tuple(_step_fn(m)) for m in self.readings.values()}) > 1
+        self.qd = sorted(self.readings["stored"].items())
         # musical-beat bookkeeping of the op history
         musical = False
         ts = []  # [t, beats, bt, mb]
@@ -364,6 +520,15 @@ class Spec:
         self.ts = sorted(ts)
         m1 = [m for m in d["measures"] if m[0] == self.first]
         self.m1 = m1[0] if m1 else None
+
+    def follow(self, observed_steps):
+        """where the readings differ: adopt the one whose step function the part shows (if any)"""
+        for name in ("stored", "every", "minimal"):
+            if _step_fn(self.readings[name]) == observed_steps:
+                self.reading = name
+                self.qd = sorted(self.readings[name].items())
+                return True
+        return False
 
     def q_at(self, u):
         cur = self.qd[0][1]
@@ -441,6 +606,11 @@ def _apply(p, S, step, counter, warm):
     elif k == "note":
         counter[1] += 1
         p.add(S.Note(step="C", octave=4, voice=1, id="n%d" % counter[1]), step[1], step[2])
+    elif k == "w":
+        # the shared read-only views (maps, note arrays, notes_tied, ...) on the half-built part
+        import gen_score
+
+        gen_score.warm_readers(p)
     elif k == "q":
         # a warm-up query on the half-built part: all five maps, scalar and array
         try:
@@ -500,8 +670,8 @@ def gen_hist(rng, d):
         if not s:
             streams.remove(s)
         if rng.random() < pq:
-            out.append(["q"])
-    if not any(s[0] == "q" for s in out):
+            out.append(["q"] if rng.random() < 0.75 else ["w"])
+    if not any(s[0] in ("q", "w") for s in out):
         out.insert(rng.randint(1, len(out)), ["q"])
     return out
 
@@ -567,7 +737,7 @@ def hist_tokens(d, hist):
             out.append("%s %s" % (s[0], _tbl_tokens(s[1])))
         elif s[0] == "not":
             out.append("not")
-        elif s[0] == "q":
+        elif s[0] in ("q", "w"):
             out.append("q")
     return " ".join(["%d %d" % (d["q0"], len(out))] + out)
 
@@ -672,6 +842,24 @@ def _eval_part(d):
 
     sp = Spec(d)
     first, last = sp.first, sp.last
+    tmax = max([last] + [t for t, _ in d["qd"]] + [int(t) for t in p._quarter_times])
+    try:
+        qobs = [float(v) for v in np.asarray(maps["qdm"](np.arange(0, tmax + 2, dtype=float)), dtype=float)]
+        if sp.ambiguous:
+            # the readings of the call history differ: the part may follow any of them
+            sp.follow(_step_fn({t: int(v) for t, v in enumerate(qobs) if v == v}))
+        # the model's list surgery and the specification (last recorded call among those with the greatest time <= x),
+        # both computed by the Lean side from the call history alone
+        req = "qdh %d %s %s" % (d["q0"], W.lst(lambda c: "%d %d" % (c[0], c[1]), d["qd"]),
+                                W.lst(W.q, list(range(0, tmax + 2))))
+        got = W.f_tuple(
+            W.f_list(lambda e: W.f_tuple(W.f_int(e[0]), W.f_int(e[1])),
+                     [(int(a), int(b)) for a, b in zip(p._quarter_times, p._quarter_durations)]),
+            W.f_list(W.f_int, [int(v) for v in qobs]))
+        ev.requests.append(req)
+        ev.impl.append(got)
+    except Exception as e:
+        ev.oracle.append("raised: quarter_duration_map(array): %r" % (e,))
     keys = sorted(set([first, last] + [t for t, _ in sp.qd] + [s[0] for s in sp.ts]))
     # extent of the knots: redundant changes are not stored by set_quarter_duration
     stored = [first, last] + [int(t) for t in p._quarter_times]
@@ -773,14 +961,17 @@ def _eval_part(d):
             ev.oracle.append("raised: %s(array): %r" % (inv, e))
 
     # ---- quarter_duration_map
-    qx = list(range(0, max(hi, last) + 3)) + [-1, -5] + [F(2 * h + 1, 2) for h in d["halves"]]
+    qx = list(range(0, max(hi, last, tmax) + 3)) + [-1, -5] + [F(2 * h + 1, 2) for h in d["halves"]]
+    how = "" if not sp.ambiguous else " (%s reading; stored-entries %r / every-call %r / minimal %r)" % (
+        sp.reading, _step_fn(sp.readings["stored"]), _step_fn(sp.readings["every"]), _step_fn(sp.readings["minimal"]))
     try:
         arr = _arr(maps["qdm"], qx)
         ev.requests.append("qdm %s %s" % (head, W.lst(W.q, qx)))
         ev.impl.append(("@approx", _nanlist(arr), 0.0))
         for x, v in zip(qx, arr):
             if x >= 0 and v != sp.q_at(x):
-                ev.oracle.append("quarter-duration: quarter_duration_map(%s) = %r, in force: %d" % (x, v, sp.q_at(x)))
+                ev.oracle.append("quarter-duration: quarter_duration_map(%s) = %r, in force after the calls %r: %d%s" % (
+                    x, v, [[0, d["q0"]]] + d["qd"], sp.q_at(x), how))
                 break
         for x in [k for k in keys if k >= 0][:40] + [0, last]:
             v = float(maps["qdm"](x))
@@ -877,7 +1068,7 @@ def _eval_part(d):
     # failures matching the open finding go last, so that a replay shows a new failure first
     ev.oracle.sort(key=lambda f: f.startswith("origin-at-time-0"))
     ev.key = "%d|%r|%r|%r|%s|%r" % (d["q0"], d["qd"], d["ops"], sp.m1, sp.first, d.get("hist"))
-    ev.info = {"late": first > 0}
+    ev.info = {"late": first > 0, "qd_reading": sp.reading if sp.ambiguous else "all-agree"}
     return ev, p, head, maps
 
 
@@ -956,7 +1147,7 @@ def shrink(d):
         yield c  # the failure does not need the history
         h = d["hist"]
         for i in range(len(h) - 1, -1, -1):
-            if h[i][0] == "q":
+            if h[i][0] in ("q", "w"):
                 c = dict(d)
                 c["hist"] = h[:i] + h[i + 1:]
                 yield c
@@ -975,6 +1166,28 @@ def shrink(d):
             yield c
 
 
+def _call_shape(d):
+    """what kind of set_quarter_duration history a description holds"""
+    ts = [t for t, _ in d["qd"]]
+    if not ts:
+        return "none"
+    tags = []
+    tags.append("ascending" if all(a <= b for a, b in zip(ts, ts[1:])) else "unordered")
+    if len(set(ts)) < len(ts) or 0 in ts:
+        tags.append("overwrite")
+    now, redundant = {0: d["q0"]}, False
+    for i, (t, q) in enumerate(d["qd"]):
+        if _in_force(now, t) == q:
+            redundant = True
+        now = qd_readings(d["q0"], d["qd"][: i + 1])["stored"]
+    if redundant:
+        tags.append("redundant")
+    st = [q for _, q in _step_fn(now)]
+    if any(st[i] == st[i + 2] for i in range(len(st) - 2)):
+        tags.append("A|B|A")
+    return "+".join(tags)
+
+
 def distribution(descs, results):
     from collections import Counter
 
@@ -991,7 +1204,10 @@ def distribution(descs, results):
         "pairs_of_one_score": len(pairs),
         "single_or_empty": len([d for d in descs if d.get("kind") == "single"]),
         "with_edit_query_history": sum(1 for d in parts if d.get("hist") is not None),
-        "warm_up_queries": sum(sum(1 for s in d["hist"] if s[0] == "q") for d in parts if d.get("hist") is not None),
+        "warm_up_queries": sum(sum(1 for s in d["hist"] if s[0] in ("q", "w")) for d in parts if d.get("hist") is not None),
+        "qd_call_histories": dict(Counter(_call_shape(d) for d in parts)),
+        "qd_readings_followed": dict(Counter((r.get("info") or {}).get("qd_reading", "-") for r in results
+                                             if isinstance(r, dict))),
         "user_table_values": dict(Counter(rel(k, v) for k, v in user)),
         "modes": dict(Counter(d["mode"] for d in parts)),
         "n_qd_changes": dict(Counter(len(d["qd"]) for d in parts)),
